@@ -7,6 +7,7 @@ from parglare.exceptions import SRConflicts, RRConflicts, DisambiguationError
 
 import gen
 from pcommon import *
+from enc import enc_items
 
 MANIFEST_ENTRY = {
     "category": "proof",
@@ -15,12 +16,14 @@ MANIFEST_ENTRY = {
             "(C10_lr_error_position, all wf tables/inputs/recognizers); (line, column) is inverted by "
             "lineColToPos for every text and position (C10_linecol_inverse); the viable-prefix oracle lists exactly "
             "the positions that end a token path beginning a sentential form of the start symbol, for every grammar "
-            "and input once its charts saturate (C10_viable_ends_correct). Per non-sentence: exception type, "
+            "and input once its charts saturate (C10_viable_ends_correct); over a validated conflict-free table the "
+            "deterministic driver never reports an error at a token that could extend a sentence prefix "
+            "(C10_not_early_when_deterministic). Per non-sentence: exception type, "
             "position vs that verified oracle (end of the longest viable token prefix + layout), "
             "LR = GLR and LALR = SLR positions, line/column vs the model, end-of-file wording, rendering, "
             "symbols_expected vs the spec's next-terminal set",
-    "note": "trusted: Lean kernel; that the implementation's position equals the oracle's ('never early') and the "
-            "expected set are decided on the explored scope (they need lookahead completeness of the table); the "
+    "note": "trusted: Lean kernel; 'not late' (the tokens before the reported position begin a sentence), the GLR "
+            "positions and the expected set are decided on the explored scope against the verified oracle; the "
             "next-terminal oracle applies the verified prefix oracle to an extended input whose well-formedness is "
             "not proved; LR/scanner models validated by correspondence",
     "technique": "Lean 4 proof (driver invariant, line/column inverse, verified viable-prefix oracle) + oracle comparison on implementation output",
@@ -28,7 +31,7 @@ MANIFEST_ENTRY = {
 
 PROP = "C10"
 LEVEL = "proof"
-THEOREMS = ["C10_lr_error_position", "C10_linecol_inverse", "C10_viable_ends_correct", "C10_viable_ends_correct_on_decoded_data"]
+THEOREMS = ["C10_lr_error_position", "C10_linecol_inverse", "C10_viable_ends_correct", "C10_viable_ends_correct_on_decoded_data", "C10_not_early_when_deterministic"]
 META = {
     "rule": "cases = (productive grammar, LR|GLR, LALR|SLR, non-sentence input incl. empty string, trailing layout, "
             "multi-line); non-trivial = rejected input with error position > 0 or at end of input after >= 1 "
@@ -108,6 +111,8 @@ def run_special(u, res):
                         res["violations"].append({"kind": "end-of-file-wording", "case": case,
                                                   "observed": [pos, len(text), msg[:80]]})
                     b.add("input", enc_input(num, p, text))
+                    if qval is not None:
+                        qdets.append(b.add("detok"))
                     qv = b.add("viable", CHART_FUEL)
                     ql = b.add("linecol", pos, [ord(c) for c in text])
                     checks.append((case, pos, line, col, qv, ql, skip_table(p, text)))
@@ -208,6 +213,12 @@ def run_unit(u):
             for pname, p, det in parsers:
                 b = Batch()
                 b.add("grammar", enc_grammar(num))
+                # hypotheses of C10_not_early_when_deterministic on the deterministic LR tables
+                qval = None
+                qdets = []
+                if det and pname == "LR":
+                    b.add("table", enc_table(num, p.table))
+                    qval = (b.add("wf"), b.add("lrvalid", enc_items(num, p.table, tname == "LALR", 1)))
                 checks = []
                 timeouts = 0
                 for text in inputs:
@@ -266,6 +277,8 @@ def run_unit(u):
                     if "\n" in text:
                         st["multiline"] += 1
                     b.add("input", enc_input(num, p, text))
+                    if qval is not None:
+                        qdets.append(b.add("detok"))
                     qv = b.add("viable", CHART_FUEL)
                     ql = b.add("linecol", pos, [ord(c) for c in text])
                     exp = None
@@ -274,6 +287,20 @@ def run_unit(u):
                     checks.append((case, pos, line, col, qv, ql, exp, skip_table(p, text)))
                 out = b.run()
                 st["traces"] += len(checks)
+                if qval is not None:
+                    if out[qval[0]] != "wf 1" or out[qval[1]] != "lrvalid 1":
+                        res["disagreements"].append({"case": {"grammar": gtxt, "tables": tname},
+                                                     "what": "hypotheses of C10_not_early_when_deterministic fail on a "
+                                                             "deterministic strategy-free table",
+                                                     "model": (out[qval[0]] + " / " + out[qval[1]])[:300]})
+                    for qd_ in qdets:
+                        tb, lx = out[qd_].split()[1:3]
+                        if tb != "1":
+                            res["disagreements"].append({"case": {"grammar": gtxt, "tables": tname},
+                                                         "what": "detTableB fails on a table whose cells are single",
+                                                         "model": out[qd_]})
+                            break
+                        bump(st, "not_early_theorem_applies" if lx == "1" else "lexically_ambiguous_inputs")
                 b2 = Batch()
                 b2.add("grammar", enc_grammar(num))
                 checks2 = []
